@@ -822,3 +822,143 @@ def flow_network_details(ctx, rid):
             ctx.bad(o, "the idle cost is subtracted: %s" % shape.show(ce)[:160], loc=e.instr.line())
         else:
             ctx.undecided(o, "cost expression not recognised: %s" % shape.show(ce)[:100])
+
+
+def loop_rule(ctx, oid, key, text, source_atom, sink_suffixes, consequence="", which="innermost"):
+    """every iteration of the loop over `source_atom` passes a call to each of the sinks with an argument taken from the element"""
+    o, fd = ctx.require_fn(oid, "T10", key, text)
+    if fd is None:
+        return
+    loops = []
+    marker = source_atom[5:] if source_atom.startswith("call:") else source_atom
+    cands = []
+    for nc, entry in loops_of(fd):
+        # the body: blocks reachable from the entry without passing the header again
+        seen, wl = set(), [entry]
+        while wl:
+            b = wl.pop()
+            if b in seen or b == nc.bb:
+                continue
+            seen.add(b)
+            wl.extend(fd.cfg.succ[b])
+        at = fd.slice_operand_pure(nc, nc.args[0])["atoms"]
+        if source_atom in at or any(i.kind == "call" and i.callee == marker for b in seen for i in fd.body.blocks[b]):
+            cands.append((len(seen), nc, entry))
+    if cands:
+        cands.sort(key=lambda x: x[0])
+        loops = [(cands[0][1], cands[0][2])] if which == "innermost" else [(c[1], c[2]) for c in cands]
+    if not loops:
+        ctx.undecided(o, "the loop is not recognised")
+        return
+    bad = []
+    for nc, entry in loops:
+        lv = nc.dest.local if nc.dest is not None else None
+        for suf in sink_suffixes:
+            alts = suf if isinstance(suf, (tuple, list)) else (suf,)
+
+            def is_sink(i, alts=alts):
+                if not any((i.callee or "").endswith(x) for x in alts):
+                    return False
+                return any(lv in fd.slice_operand_pure(i, a)["locals"] for a in i.args[1:] if a.place is not None) if lv is not None else True
+            ok, sinks = loop_always_passes(fd, nc, entry, is_sink)
+            if not ok:
+                bad.append((nc, "/".join(x.split("::")[-1] for x in alts), len(sinks)))
+    if bad:
+        nc, suf, n = bad[0]
+        ctx.bad(o, "an iteration of the loop at %s can finish without %s of its element (%d such call(s) in the body)%s" % (
+            nc.line(), suf, n, (": " + consequence) if consequence else ""), loc=nc.line())
+    else:
+        ctx.ok(o, "%d loop(s), every iteration reaches %s" % (len(loops), ", ".join(
+            "/".join(x.split("::")[-1] for x in (s if isinstance(s, (tuple, list)) else (s,))) for s in sink_suffixes)))
+
+
+def cluster_loops(ctx, rid):
+    loop_rule(ctx, "%s.clustering-keeps-every-vehicle" % rid, TR("one_cluster_per_maintenance"),
+              "one_cluster_per_maintenance: every vehicle handed in ends up in a cluster (every iteration of both loops pushes its vehicle)",
+              "param:1", [("Vec::push", "push_vehicle_to_end_of_cluster")],
+              "a vehicle belongs to no rotation cycle: the cycles no longer partition the fleet", which="all")
+
+
+def completeness_loops(ctx, rid):
+    NW = N("new")
+    loop_rule(ctx, "%s.network.service-trips-registered" % rid, NW,
+              "Network::new: every service trip of the input becomes a node and is listed under its vehicle type",
+              call("model::network::nodes::Node::create_service_trip_node"), ["Vec::push", "HashMap::insert"],
+              "a trip of the instance silently disappears from the problem")
+    loop_rule(ctx, "%s.network.maintenance-slots-registered" % rid, NW,
+              "Network::new: every maintenance slot of the input becomes a node and is listed",
+              call("model::network::nodes::Node::create_maintenance_node"), ["Vec::push", "HashMap::insert"],
+              "a maintenance slot silently disappears from the problem")
+
+
+def depot_replacement_tests(ctx, rid):
+    """a depot is replaced when it differs from the one of the same side of the tour: replace_start_depot is guarded by a comparison
+    with start_depot(), replace_end_depot by one with end_depot()"""
+    key = S("improve_depots_of_tour")
+    o, fd = ctx.require_fn("%s.depot-replaced-iff-it-differs" % rid, "T12", key,
+                           "improve_depots_of_tour compares the new start depot with the tour's start depot and the new end depot with its end depot")
+    if fd is None:
+        return
+    bad, n = [], 0
+    for side_, other in (("start", "end"), ("end", "start")):
+        for c in calls_to(fd, T("replace_%s_depot" % side_)):
+            for sw, cal, d in controlling_sources(fd, c):
+                if d is None or d.kind != "call" or (d.decl or "") not in ("core::cmp::PartialEq::ne", "core::cmp::PartialEq::eq"):
+                    continue
+                e = shape.expr_of_instr(fd, d)
+                cs = shape.calls_of(e)
+                good = any(x.endswith("Tour::%s_depot" % side_) for x in cs)
+                wrong = any(x.endswith("Tour::%s_depot" % other) for x in cs)
+                n += 1
+                if wrong and not good:
+                    bad.append((d, "replace_%s_depot at %s is guarded by a comparison with the tour's %s depot: %s" % (side_, c.line(), other, shape.show(e)[:100])))
+                else:
+                    # polarity: the replacement lies on the edge on which the depots differ
+                    t_true, t_false = sw.otherwise, dict(sw.targets).get(0)
+                    differ = t_true if d.decl.endswith("::ne") else t_false
+                    same = t_false if d.decl.endswith("::ne") else t_true
+                    if differ is not None and same is not None and fd.cfg.dominates(same, c.bb) and not fd.cfg.dominates(differ, c.bb):
+                        bad.append((d, "replace_%s_depot at %s runs when the depots are EQUAL" % (side_, c.line())))
+    if bad:
+        ctx.bad(o, bad[0][1] + ": a better depot is ignored, or the tour is rebuilt with the depot it already has while the usage counters change",
+                loc=bad[0][0].line())
+    elif n:
+        ctx.ok(o, "%d guarded replacement(s)" % n)
+    else:
+        ctx.undecided(o, "guards not recognised")
+    # the neighbour of the replaced depot
+    for name, want in (("replace_end_depot", "len-2"), ("replace_start_depot", "1")):
+        k2 = T(name)
+        o2, f2 = ctx.require_fn("%s.%s.neighbour-of-the-depot" % (rid, name), "T12", k2,
+                                "%s: the transfer that changes is the one between the depot and its neighbour (nodes[%s])" % (name, want))
+        if f2 is None:
+            continue
+        probs, seen = [], 0
+        for c in f2.body.calls():
+            if "between" not in (c.callee or "").split("::")[-1] or len(c.args) < 3:
+                continue
+            for a in c.args[1:3]:
+                e = shape.normalise(shape.expr(f2, a))
+                for ix in _find_calls(e, "Index>::index"):
+                    if len(ix[2]) != 2:
+                        continue
+                    seen += 1
+                    i_ = ix[2][1]
+                    if name == "replace_start_depot":
+                        if i_[0] == "const" and not str(i_[1]).startswith("1"):
+                            probs.append((c, "nodes[%s]" % i_[1]))
+                    else:
+                        # (len - 1) - 1 or len - 2
+                        txt = shape.show(i_)
+                        depth = txt.count("- 1_usize")
+                        if i_[0] == "bin" and i_[1] == "Sub" and depth == 1 and "2_usize" not in txt:
+                            probs.append((c, "nodes[%s] (the depot itself)" % txt))
+                        elif i_[0] == "bin" and i_[1] == "Add":
+                            probs.append((c, "nodes[%s]" % txt))
+        if probs:
+            ctx.bad(o2, "%s at %s uses %s as the depot's neighbour: the dead-head delta is computed for a transfer that is not in the tour" % (
+                (probs[0][0].callee or "").split("::")[-1], probs[0][0].line(), probs[0][1]), loc=probs[0][0].line())
+        elif seen:
+            ctx.ok(o2, "%d indexed neighbour operand(s)" % seen)
+        else:
+            ctx.undecided(o2, "neighbour operands not recognised")
